@@ -202,6 +202,13 @@ func (ex *Exec) ghostSort(name string) string {
 	if strings.HasPrefix(name, "calls.") {
 		return sInt
 	}
+	if strings.HasPrefix(name, "ser.") {
+		return serGhostSort(name)
+	}
+	switch name {
+	case "wrN", "wrClock":
+		return sInt
+	}
 	return ""
 }
 
